@@ -435,17 +435,17 @@ def run_one(seed):
     d = tempfile.mkdtemp(prefix='dt4-')
     try:
         cf = os.path.join(d, 'p.c'); open(cf, 'w').write(src)
-        r = subprocess.run(['gcc', '-w', '-O0', '-fsanitize=undefined,float-cast-overflow,address', '-fno-sanitize-recover=all', '-o', os.path.join(d, 'p'), cf], capture_output=True, text=True)
+        r = subprocess.run(['gcc', '-w', '-O0'] + (['-funsigned-char'] if os.environ.get('CPROC_TARGET') in ('aarch64', 'riscv64') else []) + [ '-fsanitize=undefined,float-cast-overflow,address', '-fno-sanitize-recover=all', '-o', os.path.join(d, 'p'), cf], capture_output=True, text=True)
         if r.returncode: return seed, 'gen-error', r.stderr[:500], src
         try:
             n = subprocess.run([os.path.join(d, 'p')], capture_output=True, text=True, timeout=30)
         except subprocess.TimeoutExpired:
             return seed, 'gen-timeout', '', src
         if n.returncode or 'runtime error' in n.stderr or 'Sanitizer' in n.stderr: return seed, 'gen-ub', n.stderr[:400], src
-        r2 = subprocess.run(['gcc', '-w', '-O2', '-o', os.path.join(d, 'p2'), cf], capture_output=True, text=True)
+        r2 = subprocess.run(['gcc', '-w', '-O2'] + (['-funsigned-char'] if os.environ.get('CPROC_TARGET') in ('aarch64', 'riscv64') else []) + ['-o', os.path.join(d, 'p2'), cf], capture_output=True, text=True)
         n2 = subprocess.run([os.path.join(d, 'p2')], capture_output=True, text=True, timeout=30)
         if n2.stdout != n.stdout: return seed, 'gen-unstable', 'gcc -O0 and -O2 disagree', src
-        c = subprocess.run([CPROC, cf], capture_output=True, text=True)
+        c = subprocess.run([CPROC] + (['-t', os.environ['CPROC_TARGET']] if os.environ.get('CPROC_TARGET') else []) + [cf], capture_output=True, text=True)
         if c.returncode: return seed, 'cproc-reject', c.stderr[:400], src
         try:
             rv, out = qbei.run(c.stdout, max_steps=50_000_000)
